@@ -135,7 +135,7 @@ def py_classes(source: str) -> dict:
 	"""{class name: {'base': name | None, 'fields': [names in declaration order], 'methods': {name: (params, body, return type)}}}"""
 	out = {}
 	for cl in ast.parse(source).body:
-		if not isinstance(cl, ast.ClassDef):
+		if not isinstance(cl, ast.ClassDef) or (cl.bases and isinstance(cl.bases[0], ast.Name) and cl.bases[0].id == 'Enum'):
 			continue
 		base = cl.bases[0].id if cl.bases and isinstance(cl.bases[0], ast.Name) else None
 		fields = [st.target.id for st in cl.body if isinstance(st, ast.AnnAssign) and isinstance(st.target, ast.Name)]
@@ -144,6 +144,44 @@ def py_classes(source: str) -> dict:
 		static = {st.name for st in cl.body if isinstance(st, ast.FunctionDef) and 'classmethod' in deco(st)}
 		props = {st.name for st in cl.body if isinstance(st, ast.FunctionDef) and 'property' in deco(st)}
 		out[cl.name] = {'base': base, 'fields': fields, 'methods': methods, 'inits': None, 'super_args': None, 'static': static, 'props': props}
+	return out
+
+
+def py_enums(source: str) -> dict:
+	"""{enum name: {member: int value}} for classes deriving from Enum with int literal members"""
+	out = {}
+	for cl in ast.parse(source).body:
+		if isinstance(cl, ast.ClassDef) and cl.bases and isinstance(cl.bases[0], ast.Name) and cl.bases[0].id == 'Enum':
+			members = {}
+			for st in cl.body:
+				if isinstance(st, ast.Assign) and len(st.targets) == 1 and isinstance(st.targets[0], ast.Name) and isinstance(st.value, ast.Constant) and isinstance(st.value.value, int):
+					members[st.targets[0].id] = st.value.value
+			out[cl.name] = members
+	return out
+
+
+ENUM_HEAD = re.compile(r'^enum class ([A-Za-z_]\w*) \{\s*$')
+ENUM_MEMBER = re.compile(r'^\t([A-Za-z_]\w*) = (-?\d+),\s*$')
+
+
+def cpp_enums(text: str) -> dict:
+	out = {}
+	lines = text.split('\n')
+	i = 0
+	while i < len(lines):
+		m = ENUM_HEAD.match(lines[i])
+		if m:
+			members = {}
+			j = i + 1
+			while j < len(lines) and lines[j] != '};':
+				mm = ENUM_MEMBER.match(lines[j])
+				if mm:
+					members[mm.group(1)] = int(mm.group(2))
+				j += 1
+			out[m.group(1)] = members
+			CLASS_NAMES.add(m.group(1))
+			i = j
+		i += 1
 	return out
 
 
@@ -306,6 +344,8 @@ class CppParser:
 					self.eat()
 			self.eat(')')
 			return self.postfix(('scall', t.split('::')[0], t.split('::')[1], args))
+		if re.fullmatch(r'[A-Za-z_]\w*::[A-Za-z_]\w*', t) and self.peek() != '(':
+			return ('enum', t.split('::')[0], t.split('::')[1])
 		if not re.fullmatch(r'[A-Za-z_]\w*', t):
 			raise Unsupported(f'C++ operand {t!r}')
 		if self.peek() == '(':
